@@ -1073,8 +1073,8 @@ class VBSClusteringManager:
                 0.0,
                 vam_constants.TIME_CLUSTER_JOIN_NOTIFICATION - elapsed,
             )
-            # joinTime is DeltaTimeQuarterSecond (0..127, units 0.25 s)
-            join_time = min(127, int(remaining_s / 0.25))
+            # joinTime is DeltaTimeQuarterSecond (1..255, units 0.25 s; 255 = unavailable)
+            join_time = max(1, min(127, int(remaining_s / 0.25)))
             return {
                 "clusterJoinInfo": {
                     "clusterId": self._join_target_cluster_id or 0,
@@ -1128,7 +1128,8 @@ class VBSClusteringManager:
                 0.0,
                 vam_constants.TIME_CLUSTER_BREAKUP_WARNING - elapsed,
             )
-            breakup_time = min(127, int(remaining_s / 0.25))
+            # breakupTime is DeltaTimeQuarterSecond (1..255): never below one step
+            breakup_time = max(1, min(127, int(remaining_s / 0.25)))
             return {
                 "clusterBreakupInfo": {
                     "clusterBreakupReason": (
